@@ -14,7 +14,8 @@ PROP = 'C13'
 LEVEL = 'fault_enumeration'
 RULE = ('enumeration of request kind x CONTENT_LENGTH class x chunked x (max_content_length, block_length) x '
         'abort-after-k for 9 protocol configurations; a case is non-trivial when start_response was observed and '
-        'distinct by (protocol, request kind, CL class, chunked, limit class, abort point, status).')
+        'distinct by (protocol, request kind, CL class, chunked, limit class, abort point, status).'
+        ' Request kinds incl. generators and streams failing before/after k items (generator functions and iterator objects), methods choosing the protocol of their own answer, faults the output protocol cannot write, Ignored from multi-return methods, ?wsdl with a rewriting listener and with injected build faults; CONTENT_LENGTH classes incl. text, negative, 5000 digits; lean environs without QUERY_STRING / PATH_INFO / CONTENT_TYPE.')
 ASSUMPTIONS = [
     'no clocks: "closed not before the body was handed over" is judged on the logical order of recorded events',
     'when CONTENT_LENGTH is absent or understates the body only the read bound is judged (a server cannot know the real length)',
